@@ -5,6 +5,8 @@ one line of reason each. A callee not listed here is interpreted from its own MI
 in the program (same workspace), and is otherwise an opaque, possibly-mutating call that clients
 treat as "cannot establish".
 """
+import re
+
 from . import ivl
 from .segx import Cut
 
@@ -28,6 +30,9 @@ PURE = {
     "std::cmp::impls::<impl std::cmp::PartialOrd for char>::gt": "comparison",
     "std::cmp::impls::<impl std::cmp::PartialEq for char>::eq": "comparison",
 }
+
+
+FN_CALL = re.compile(r"(^|as )std::ops::Fn(Mut|Once)?>?::call(_mut|_once)?$")
 
 
 def deref_val(eng, st, v):
@@ -94,7 +99,7 @@ class StdModels(object):
                 return [(st, ("inset", x[1], ivl.inter(ivl.FULL, ((lo, hi),)) if lo <= hi else ()))]
         if name in ("<std::iter::Peekable as std::iter::Iterator>::next",):
             return self.iter_next(eng, st, c)
-        if name in ("std::ops::Fn::call", "std::ops::FnMut::call_mut", "std::ops::FnOnce::call_once"):
+        if FN_CALL.search(name):
             f = c.args[0]
             if f[0] == "ref":
                 f = eng.read(st, f[1], f[2])
@@ -140,11 +145,12 @@ class StdModels(object):
         """Call of a function value."""
         if f[0] == "fn":
             # enum variant constructors used as functions (`Ok`, `Some`, ...)
-            path = f[1]
+            from .segx import norm_path as _np
+            path = _np(f[2]) if len(f) > 2 and f[2] else f[1]
             for ctor, adt, vi in (("std::result::Result::Ok", "std::result::Result", 0),
                                   ("std::result::Result::Err", "std::result::Result", 1),
                                   ("std::option::Option::Some", OPT, 1)):
-                if path == ctor and len(args) == 1:
+                if (path == ctor or f[1] == ctor) and len(args) == 1:
                     return [(st, ("adt", adt, ctor.rsplit("::", 1)[1], vi, (("0", args[0]),)))]
             if self.program is not None:
                 from .segx import norm_path
